@@ -83,6 +83,8 @@ func c11GenHist(rng *rand.Rand, maxCycles int) c11Hist {
 		}
 		h.Cycles = append(h.Cycles, c11Cycle{Keys: keys, Drain: []string{"none", "one", "half", "all", "all", "all+extra"}[rng.Intn(6)], Twice: rng.Intn(8) == 0})
 	}
+	// AutoClean: the first cycle drained to io.EOF is the sorter's last (the history stops there)
+	h.AutoClean = rng.Intn(6) == 0
 	return h
 }
 
@@ -261,6 +263,14 @@ func c11RunHist(r *obs.Run, h c11Hist, scratch string, checkResidue bool) (res c
 				v, err := pull()
 				if err != io.EOF {
 					return fail("no-eof", when(fmt.Sprintf("pull after exhaustion returned (%v, %v), want io.EOF", v, err)))
+				}
+				// the exhausted pull leaves the counters alone; with AutoClear (or AutoClean) it closed the cycle
+				wantPos, wantLen := int64(len(cyc.Keys)), int64(len(cyc.Keys))
+				if h.AutoClear {
+					wantPos, wantLen = 0, 0
+				}
+				if !h.AutoClean && (m.Pos() != wantPos || m.Len() != wantLen) {
+					return fail("pos-len", when(fmt.Sprintf("after the io.EOF pull #%d Pos=%d Len=%d, want %d and %d", x+1, m.Pos(), m.Len(), wantPos, wantLen)))
 				}
 			}
 			eof = true
